@@ -11,6 +11,10 @@ What is pinned
     `parent_macros`, the fact that `parse_object_template` starts the inclusions without parents,
     the order inclusions / own fields / own friends / de-dup in `parse_object_template` and in
     `include_macro`, the split/strip/filter of the `include:` string
+  * the two stacks: `context.macros_being_expanded` in include_macro and `context.files_being_parsed` in
+    parse_included_file must be push / try / finally-pop stacks (kind 'stack'); a set that is never popped
+    is a different rule (it would forbid diamonds) and is a PinError; the version rule of
+    parse_top_level_elements as a kind ('assign' | 'keep-or-conflict') with its tests
   * file flattening: the order in which `parse_top_level_elements` handles included files, options,
     macros, plugins, version and statements (a table derived from the statement sequence), the macro
     table update expression, `parse_included_files`, `parse_included_file` (no cycle check: no state is
@@ -62,6 +66,21 @@ def stored_value(body, what):
     return ast.unparse(body[0].value)
 
 
+def stack_kind(func, container, item):
+    """'none' if `container` is not mentioned; 'stack' if `<container>.append(<item>)` is followed by a
+    try whose finally pops it; otherwise a PinError (a set / a list that is never popped is another rule)."""
+    src = ast.unparse(func)
+    if container not in src:
+        return "none"
+    for i, st in enumerate(func.body):
+        if isinstance(st, ast.Expr) and ast.unparse(st) == f"{container}.append({item})":
+            nxt = func.body[i + 1] if i + 1 < len(func.body) else None
+            if isinstance(nxt, ast.Try) and len(nxt.finalbody) == 1 and ast.unparse(nxt.finalbody[0]) == f"{container}.pop()" \
+                    and not nxt.handlers:
+                return "stack"
+    raise PinError(f"{func.name}: `{container}` is used but not as a push / try / finally-pop stack")
+
+
 @group("Compose", "snowfakery/parse_recipe_yaml.py", ["C14"])
 def _compose(tree):
     out = ""
@@ -99,9 +118,19 @@ def _compose(tree):
     im = find_func(tree, "include_macro")
     out += ldef("includeMacroSource", body_lines(im))
     tests = [n for n in ast.walk(im) if isinstance(n, ast.If) and "parent_macros" in ast.unparse(n.test)]
-    if len(tests) != 1 or not any(isinstance(s, ast.Raise) for s in tests[0].body):
-        raise PinError("include_macro: the cycle check changed shape")
-    out += sdef("cycleTest", ast.unparse(tests[0].test))
+    chain = [n for n in tests if ast.unparse(n.test) == "name in parent_macros"]
+    nested = [n for n in tests if n not in chain]
+    if len(chain) != 1 or not any(isinstance(s, ast.Raise) for s in chain[0].body):
+        raise PinError("include_macro: the chain cycle check changed shape")
+    out += sdef("cycleTest", ast.unparse(chain[0].test))
+    # the second check (D46): the stack of all macros under expansion, kept on the context
+    if len(nested) > 1 or (nested and not any(isinstance(s, ast.Raise) for s in nested[0].body)):
+        raise PinError("include_macro: the nested cycle check changed shape")
+    out += sdef("nestedCycleTest", ast.unparse(nested[0].test) if nested else "")
+    if nested and nested[0].lineno > chain[0].lineno:
+        raise PinError("include_macro: the nested cycle check no longer precedes the chain check")
+    out += sdef("macroExpansionTracking", stack_kind(im, "context.macros_being_expanded", "name"),
+                "how include_macro keeps track of the macros under expansion: 'stack' = push before, pop in a finally")
     calls = [n for n in ast.walk(im) if isinstance(n, ast.Call) and ast.unparse(n.func) == "parse_inclusions"]
     if len(calls) != 1 or len(calls[0].args) != 5:
         raise PinError("include_macro: expected one parse_inclusions(macro, fields, friends, context, parents) call")
@@ -135,7 +164,8 @@ def _compose(tree):
     pt = find_func(tree, "parse_top_level_elements")
     out += ldef("parseTopLevelSource", body_lines(pt))
     order = []
-    for st in pt.body:
+    version_rule = None
+    for i, st in enumerate(pt.body):
         src = ast.unparse(st)
         if "parse_included_files(" in src:
             order.append("included_files")
@@ -146,19 +176,46 @@ def _compose(tree):
             out += sdef("macroUpdateExpr", ast.unparse(st.value.args[0]))
         elif src.startswith("context.plugins.extend("):
             order.append("plugins")
-        elif src.startswith("context.version ="):
+        elif src.startswith("context.version =") or src.startswith("own_version = parse_version("):
             order.append("version")
-            out += sdef("versionAssign", src)
+            if src.startswith("context.version ="):
+                version_rule = ["assign", src]
+            else:
+                nxt = pt.body[i + 1] if i + 1 < len(pt.body) else None
+                if not (isinstance(nxt, ast.If) and ast.unparse(nxt.test) == "own_version is not None" and not nxt.orelse
+                        and len(nxt.body) == 2 and isinstance(nxt.body[0], ast.If)
+                        and any(isinstance(x, ast.Raise) for x in nxt.body[0].body)
+                        and ast.unparse(nxt.body[1]) == "context.version = own_version"):
+                    raise PinError("parse_top_level_elements: the version rule changed shape")
+                version_rule = ["keep-or-conflict", src, ast.unparse(nxt.test), ast.unparse(nxt.body[0].test),
+                                ast.unparse(nxt.body[0].body[0].exc.func), ast.unparse(nxt.body[1])]
         elif src.startswith("statements.extend(top_level_objects"):
             order.append("statements")
-    if "macroUpdateExpr" not in out or "versionAssign" not in out:
-        raise PinError("parse_top_level_elements: macro update / version assignment not found")
+    if "macroUpdateExpr" not in out or version_rule is None:
+        raise PinError("parse_top_level_elements: macro update / version rule not found")
+    out += ldef("versionRule", version_rule,
+                "'assign': the file's own declaration list overwrites; 'keep-or-conflict': no declaration keeps, a different one is an error")
     out += ldef("topLevelOrder", order, "the order in which one file's declarations reach the context")
     out += ldef("parseIncludedFilesSource", body_lines(find_func(tree, "parse_included_files")))
-    out += ldef("parseIncludedFileSource", body_lines(find_func(tree, "parse_included_file")))
+    pif = find_func(tree, "parse_included_file")
+    out += ldef("parseIncludedFileSource", body_lines(pif))
+    out += sdef("includeCycleTracking", stack_kind(pif, "context.files_being_parsed", "resolved"),
+                "how parse_included_file keeps track of the files being read: 'none' | 'stack' (push, try, finally pop)")
+    ctests = [n for n in ast.walk(pif) if isinstance(n, ast.If) and "files_being_parsed" in ast.unparse(n.test)]
+    if len(ctests) > 1 or (ctests and not any(isinstance(x, ast.Raise) for x in ctests[0].body)):
+        raise PinError("parse_included_file: the cycle test changed shape")
+    out += sdef("includeCycleTest", ast.unparse(ctests[0].test) if ctests else "")
+    out += ldef("relpathSource", body_lines(find_func(tree, "relpath_from_inclusion_element")))
     out += ldef("parseVersionSource", body_lines(find_func(tree, "parse_version")))
     pr = find_func(tree, "parse_recipe")
-    out += ldef("parseRecipeHead", [ast.unparse(st) for st in pr.body[:3]])
+    head = []
+    for st in pr.body[:3]:
+        if isinstance(st, ast.Try):
+            head += [ast.unparse(x) for x in st.body]
+            head += ["except " + ast.unparse(h.type) for h in st.handlers]
+            break
+        head.append(ast.unparse(st))
+    out += ldef("parseRecipeHead", head)
     cr = module_constant(tree, "collection_rules")
     if not isinstance(cr, ast.Dict):
         raise PinError("collection_rules is no longer a dict literal")
